@@ -245,6 +245,11 @@ def scale_battery(jp, rec):
     # the error at the very end of the query, and characters that mean something to string formatting in the echoed token
     big += [pre + body for pre in ("$['", "$[\"", "$[?@ == 'x", "$.a['k', 'ab", "$[?match(@, \"") for body in ("\\", "ab\\", "\\\\\\", "\\u12", "\\u", "\\ud83d", "\\ud83d\\", "")]
     big += [tmpl.replace("X", x) for x in ("%", "%s", "%d", "%(a)s", "{}", "{0}", "%%", "100%", "%5") for tmpl in ("$[?@.a X 2 == 0]", "$.X", "$[X]", "$['a', X]", "$[?X(@)]", "$[?@ == X]", "$[?@.a == 1 X]", "$X", "X", "$.a\nX", "$[?'X' == @ x]")]
+    # parenthesised, negated and chained comparison operands (rejected after the operand itself was parsed), on one and on several lines
+    for c_ in ["@.a", "'x'", "1", "length(@.a)", "$.b", "@", "true"]:
+        for tmpl in ["$[?(C) == 1]", "$[?1 == (C)]", "$[?((C)) == 1]", "$[?@.x &&\n (C) < 2]", "$[?(C) == (C)]", "$[?!(C) == 1]", "$[?@.a == !C]", "$[?C == 1 == 2]", "$[?@.y ||\n\n 1 < C < 3]",
+                     "$[?(C == 1) == true]", "$[?length((C)) == 1]", "$[?count(@.*) == (C)]", "$.a\n[?(C)\n== 1]"]:
+            big.append(tmpl.replace("C", c_))
     for t in big:
         rec.wal({"compile": t[:60] + "... (%d characters)" % len(t)})
         try:
